@@ -313,7 +313,7 @@ class OptionalConstraint(Contract):
 
     target = "constraint.Constraint.set_z3_assertions"
     inlines = ("constraint.Constraint.__init__",)
-    props = ("C10",)
+    props = ("C10", "C05")
 
     def cases(self, tier):
         return [dict(cls=c) for c in OPTIONAL_CLASSES]
@@ -347,7 +347,8 @@ class OptionalConstraint(Contract):
         ok, why = equivalent_modulo_fresh([z3.simplify(stripped)], [z3.simplify(phi)])
         off = z3.simplify(z3.substitute(guarded, (applied, z3.BoolVal(False))))
         out.append(Clause("equals[applied => the constraint's own assertions]", z3.BoolVal(ok is True), props=("C10",), kind="equals", note=str(why)[:300]))
-        out.append(Clause("equals[not applied => nothing is enforced]", off, props=("C10",), kind="equals"))
+        # (also a completeness statement, C05: an optional constraint that is left unapplied loses no schedule)
+        out.append(Clause("equals[not applied => nothing is enforced]", off, props=("C10", "C05"), kind="equals"))
         return out
 
 
